@@ -167,12 +167,18 @@ class InitLevel(abc.ABC):
         raise NotImplementedError()
 
 
+def is_unnamed_member(field):
+    """Test for a member without name, such as the bit-field 'int : 3'"""
+    return field.is_anonymous and not field.typ.is_struct_or_union
+
+
 class StructInitLevel(InitLevel):
     def __init__(self, initializer, implicit):
         assert initializer.typ.is_struct
         assert isinstance(initializer, expressions.StructInitializer)
         super().__init__(initializer, implicit)
         self.pos = 0  # TODO: integer pos or field name?
+        self._skip_unnamed()
 
     def __repr__(self):
         return (
@@ -189,6 +195,16 @@ class StructInitLevel(InitLevel):
 
     def go_next(self):
         self.pos += 1
+        self._skip_unnamed()
+
+    def _skip_unnamed(self):
+        """Unnamed bit-fields take no part in initialization.
+
+        See C99 6.7.8p9. Anonymous structs and unions are members.
+        """
+        fields = self.typ.fields
+        while self.pos < len(fields) and is_unnamed_member(fields[self.pos]):
+            self.pos += 1
 
     def go_to_field(self, field):
         pos = self.typ.fields.index(field)
@@ -211,7 +227,9 @@ class UnionInitLevel(InitLevel):
         assert initializer.typ.is_union
         assert isinstance(initializer, expressions.UnionInitializer)
         super().__init__(initializer, implicit)
-        self._field = self.typ.fields[0]
+        # Without designator, the first named member is initialized:
+        named_fields = [f for f in self.typ.fields if not is_unnamed_member(f)]
+        self._field = (named_fields or self.typ.fields)[0]
         self._end = False
 
     def go_to_field(self, field):
